@@ -20,6 +20,9 @@ EXPLANATION = (
     "R4 -- only calls whose phase is present and complete enter a block (none-before-use filter); "
     "R5 -- the list of switch-error records printed to the BED file inside the chromosome loop is re-created in every iteration (no error position is reported twice)."
 )
+EXPLANATION += (
+    " " + 'R8: the block-wise Hamming distance is a running minimum that only takes inf, min(itself, x) or a guarded smaller value (or one min() over all permutations); joint blocks collected through groupby need input sorted by the same key.'
+)
 NOT_DECIDED = "Minimality over haplotype correspondences, label independence, the C++ permutation DP (value-level)."
 ASSUMPTIONS = ["a haplotype is represented as a str of allele characters, a phasing as a list of such strings (established by the kind inference on compare_pair)"]
 
@@ -693,8 +696,14 @@ def r8(ctx):
     ccfg = ctx.cfg(cb)
     rets = [c for c in ctx.prog.calls_in(cb.node) if u(c.func) == "PhasingErrors"]
     hv = [k.value for c in rets for k in c.keywords if k.arg == "hamming"]
+    # the reported value: a local, possibly wrapped in int() / float(), the same local in every construction
+    def _unwrap(e):
+        while isinstance(e, ast.Call) and u(e.func) in ("int", "float", "round") and e.args:
+            e = e.args[0]
+        return e
+    hv = [_unwrap(x) for x in hv]
     ok = None
-    if len(hv) == 1 and isinstance(hv[0], ast.Name):
+    if hv and all(isinstance(x, ast.Name) for x in hv) and len({x.id for x in hv}) == 1:
         m = hv[0].id
         ok = True
         n_min = 0
@@ -707,6 +716,10 @@ def r8(ctx):
             if t in ("float('inf')", "math.inf", "inf", "float('Inf')", "float('infinity')"):
                 continue
             if isinstance(v, ast.Call) and u(v.func) == "min" and len(v.args) == 2 and m in (u(v.args[0]), u(v.args[1])) and not v.keywords:
+                n_min += 1
+                continue
+            if isinstance(v, ast.Call) and u(v.func) == "min" and len(v.args) == 1 and isinstance(v.args[0], (ast.GeneratorExp, ast.ListComp)) and len(v.args[0].generators) == 1 and not v.args[0].generators[0].ifs and isinstance(v.args[0].generators[0].iter, ast.Call) and u(v.args[0].generators[0].iter.func) in ("permutations", "itertools.permutations") and not [k for k in v.keywords if k.arg != "default"]:
+                # min(<distance of the permutation> for permutation in permutations(..)): every correspondence is looked at
                 n_min += 1
                 continue
             if isinstance(v, ast.Call) and u(v.func) in ("int", "float") and len(v.args) == 1 and u(v.args[0]) == m:
@@ -731,6 +744,17 @@ def r8(ctx):
             continue
         for c in ctx.prog.calls_in(fi.node, include_nested=True):
             if not (u(c.func) in ("groupby", "itertools.groupby") and c.args):
+                continue
+            # only where the groups are collected under their key (a dict): iterating runs of equal neighbours is what
+            # groupby is for
+            par = getattr(c, "parent", None)
+            collected = isinstance(par, ast.comprehension) and isinstance(getattr(par, "parent", None), ast.DictComp)
+            if isinstance(par, ast.Call) and u(par.func) in ("dict", "OrderedDict", "defaultdict"):
+                collected = True
+            if isinstance(par, ast.For) and par.iter is c and isinstance(par.target, ast.Tuple) and par.target.elts:
+                kname = u(par.target.elts[0])
+                collected = any(isinstance(x, ast.Assign) and any(isinstance(t_, ast.Subscript) and u(t_.slice) == kname for t_ in x.targets) for x in ast.walk(par))
+            if not collected:
                 continue
             n_sites += 1
             key = c.args[1] if len(c.args) > 1 else ([k.value for k in c.keywords if k.arg == "key"] or [None])[0]
